@@ -163,6 +163,36 @@ fn nt_c16(s: &Stats) -> bool {
     s.counters.iter().any(|(k, v)| k.ends_with(".err") && *v > 0)
 }
 
+fn p_c04() -> Profile {
+    let mut p = Profile::base("C04");
+    p.w_stake = 24;
+    p.w_rewards = 9;
+    p.w_resume = 3;
+    p.w_submit = 9;
+    p.w_unstake = 10;
+    p.len = (25, 70);
+    p
+}
+fn nt_c04(s: &Stats) -> bool {
+    (s.flags.contains("stake_rate_ne_1") || s.flags.contains("submit_rate_ne_1"))
+        && (s.flags.contains("stake_threshold_reject") || s.flags.contains("stake_at_expected") || s.flags.contains("stake_at_min"))
+}
+
+fn p_c09() -> Profile {
+    let mut p = Profile::base("C09");
+    p.len = (25, 60);
+    p.w_deliver = 16;
+    p.w_rewards = 16;
+    p.w_config = 10;
+    p.identity_changes = true;
+    p.w_recover = 3;
+    p.w_resolve = 8;
+    p
+}
+fn nt_c09(s: &Stats) -> bool {
+    (s.flags.contains("impostor_delivery") || s.flags.contains("impostor_rewards")) && (s.flags.contains("deliver_ok") || s.flags.contains("rewards_ok"))
+}
+
 pub struct HistSpec {
     pub prop: &'static str,
     pub profile: Profile,
@@ -180,6 +210,10 @@ pub fn hist_spec(prop: &str) -> Option<HistSpec> {
             rule: "history of 40-90 ops; non-trivial = >=2 batches received, one of them with >=2 requesters, >=1 short or generous delivery, >=1 withdrawal, and a fee accrual or an outstanding refund; distinct by executed-op hash" },
         "C03" => HistSpec { prop: "C03", profile: p_c03(), nontrivial: nt_c03, quick: 600, thorough: 20_000,
             rule: "history of 25-70 stake-heavy ops; non-trivial = a successful stake to a native-chain recipient at an exchange rate != 1, or a successful submission of a batch with >=2 requesters; distinct by executed-op hash" },
+        "C04" => HistSpec { prop: "C04", profile: p_c04(), nontrivial: nt_c04, quick: 300, thorough: 20_000,
+            rule: "(a) pure cases (N, L, amount) over the full 128-bit space, boundary-biased and constructed on rounding boundaries; non-trivial = division remainder != 0 or constructed boundary case; distinct by value hash. (b) stake-heavy histories; non-trivial = a stake/submission at rate != 1 plus a stake on a threshold (minimum, expected_mint_amount, zero-mint guard); distinct by executed-op hash" },
+        "C09" => HistSpec { prop: "C09", profile: p_c09(), nontrivial: nt_c09, quick: 300, thorough: 20_000,
+            rule: "(a) derivation cases: channel ids over u64, native senders under generated prefixes with 20/32-byte payloads, protocol prefixes, plus an adversarially close second pair; every case is non-trivial, distinct by value hash. (b) histories with impostor deliveries and UpdateConfig changes of channel/staker/collector; non-trivial = an impostor attempt and an authentic accepted delivery in one history" },
         "C05" => HistSpec { prop: "C05", profile: p_c05(), nontrivial: nt_c05, quick: 800, thorough: 30_000,
             rule: "history of 40-90 unstake/submit/deliver/withdraw-heavy ops; non-trivial = a batch with >=3 requesters delivered with received != expected, >=1 repeated unstake by one account in one batch, >=2 successful withdrawals; distinct by executed-op hash" },
         "C06" => HistSpec { prop: "C06", profile: p_c06(), nontrivial: nt_c06, quick: 800, thorough: 30_000,
@@ -203,5 +237,16 @@ pub fn check_history(prop: &str, thorough: bool, seed: u64) -> Option<Report> {
     let cases = if thorough { spec.thorough } else { spec.quick };
     let out = run_histories(spec.prop, &spec.profile, cases, seed, 1, spec.nontrivial);
     rep.absorb(out);
+    match prop {
+        "C04" => {
+            rep.absorb(crate::props_pure::check_c04_pure(if thorough { 20_000_000 } else { 400_000 }, seed));
+            rep.assumptions.push("pure cases whose reference result exceeds 128 bits are skipped (the property says 'representable')".into());
+        }
+        "C09" => {
+            rep.absorb(crate::props_pure::check_c09_pure(if thorough { 5_000_000 } else { 100_000 }, seed));
+            rep.assumptions.push("reference derivation = own SHA-256 + own bech32 encoder, validated against FIPS 180-4 and BIP-173 vectors at start-up; injectivity beyond the string level rests on SHA-256".into());
+        }
+        _ => {}
+    }
     Some(rep)
 }
